@@ -361,8 +361,10 @@ def crashStep (line : String) : String :=
   match words line with
   | ["plan", backend, kind, res, facts, seq] =>
     let got := if seq == "-" then [] else seq.splitOn ","
+    let chunks := ((facts.splitOn "=").getD 1 "0").toNat?.getD 0
     let want :=
-      if backend == "badger" then Crash.badgerNames kind (res != "ok" || facts == "exists=1")
+      if kind == "restore" then (if res == "ok" then Crash.restoreNames backend chunks else got)
+      else if backend == "badger" then Crash.badgerNames kind (res != "ok" || facts == "exists=1")
       else Crash.pathbadgerNames kind res (facts == "exists=1")
     if got == want then "ok"
     else s!"DIVERGE plan-mismatch:{backend}.{kind} real operation passed {got}, the model's plan is {want}"
@@ -370,7 +372,17 @@ def crashStep (line : String) : String :=
     match bi.toNat? with
     | none => "DIVERGE bad-op"
     | some bi =>
-      if backend == "badger" then
+      let chunks := ((facts.splitOn "=").getD 1 "0").toNat?.getD 0
+      if kind == "restore" then
+        if backend == "badger" then
+          let allowed := Crash.badgerRestoreClasses chunks bi
+          if allowed.contains cls then "ok"
+          else s!"DIVERGE crash-class-mismatch:{backend}.restore observed {cls} at boundary {bi} of {chunks} chunks, model predicts {allowed}"
+        else
+          let lastB := bi + 1 == (Crash.restoreNames backend chunks).length
+          if (lastB && cls == "new") || (!lastB && (cls.endsWith "+retry-ok" || cls == "new")) then "ok"
+          else s!"DIVERGE crash-class-mismatch:{backend}.restore observed {cls} at boundary {bi} of {chunks} chunks"
+      else if backend == "badger" then
         let allowed := Crash.badgerCrashClasses kind bi (facts == "loneio=1")
         if allowed.contains cls then "ok"
         else s!"DIVERGE crash-class-mismatch:{backend}.{kind}.{bi} observed {cls}, model predicts {allowed}"
